@@ -3,6 +3,8 @@ import argparse
 import atexit
 import hashlib
 import importlib
+import importlib.abc
+import importlib.machinery
 import json
 import os
 import shutil
@@ -87,15 +89,20 @@ def load_known(prop_id):
     return open_, fixed
 
 
+class _PropsFinder(importlib.abc.MetaPathFinder):
+    """modules under /verif/props (harnesses, oracles, helpers) are loaded through the instrumenter"""
+
+    def find_spec(self, name, path=None, target=None):
+        p = os.path.join(VERIF, "props", name + ".py")
+        if "." in name or not os.path.exists(p):
+            return None
+        return importlib.machinery.ModuleSpec(name, instrument._Loader(p, True), origin=p)
+
+
 def load_prop(prop_id):
-    path = os.path.join(VERIF, "props", prop_id.lower() + ".py")
-    for dep in ("oracles",):
-        dp = os.path.join(VERIF, "props", dep + ".py")
-        if dep not in sys.modules and os.path.exists(dp):
-            instrument.load_instrumented_module(dep, dp)
-    if "common" not in sys.modules:
-        instrument.load_instrumented_module("common", os.path.join(VERIF, "props", "common.py"))
-    return instrument.load_instrumented_module("prop_" + prop_id.lower(), path)
+    if not any(isinstance(f, _PropsFinder) for f in sys.meta_path):
+        sys.meta_path.insert(0, _PropsFinder())
+    return importlib.import_module(prop_id.lower())
 
 
 def _fmt_conc(c):
@@ -268,7 +275,7 @@ def main(argv=None):
         return EXIT_VIOLATION
     if problems:
         for p in problems[:12]:
-            print("INCONCLUSIVE property=%s reason=%s" % (prop_id, p))
+            print("INCONCLUSIVE property=%s reason=%s" % (prop_id, p if os.environ.get("VERIF_DEBUG") else p.split("\n")[0][:1200]))
         return EXIT_INCONCLUSIVE
     print("OK property=%s held on every feasible path within the stated bounds" % prop_id)
     return EXIT_OK
